@@ -71,3 +71,7 @@ Definition field_set (size bv : Z) (f : field) (v : Z) : result Z :=
   match f with FRange p => part_set size bv p v | FConcat ps => concat_set size bv ps v end.
 Definition field_get (bv : Z) (f : field) : result Z :=
   match f with FRange p => part_get bv p | FConcat ps => concat_get bv ps 0 end.
+
+(* write, then read back: (new bit_value, value read) — used by the correspondence cases *)
+Definition field_set_get (size bv : Z) (f : field) (v : Z) : result (Z * Z) :=
+  bv' <- field_set size bv f v ;; t <- field_get bv' f ;; Ok (bv', t).
